@@ -1,2 +1,3 @@
 -- Root of the `TrionModel` library: everything that `lake build` must check.
 import TrionModel.Props.C17
+import TrionModel.Props.C07
